@@ -633,6 +633,36 @@ def gen_C08(rng, tier, copy_flag=1):
                 data = rand_bytes(rng, nbytes, pat)
                 ops = [x for x in [pre_r, pre_w, '%s %d' % (kind, n), 'pos', cont, 'pos', 'wb x5 3', 'wf', 'wd'] if x]
                 lines.append('S %s ww=%d copy=%d data=%s :: %s' % (cfg, ww, copy_flag, hexs(data), ' ; '.join(ops)))
+    # directed: (a) the copy ends exactly on a word boundary of the source, then look-aheads that
+    # refill twice; (b) the destination sits exactly on a word boundary with a stale buffer (after a
+    # unary code or an odd field that filled the word) and the first copied bit is 0
+    for cfg in cfgs:
+        W = rw_of(cfg)
+        cap = peek_cap(cfg)
+        wordbits = 64 if is_bit(cfg) else W
+        la = ['rp %d ; rb 1 ; rp %d ; rb %d ; rp %d ; rb 7 ; pos' % (cap, cap, wordbits - 1, cap)]
+        if cap >= 16:
+            la += ['rc gamma 1 0 ; rc gamma 1 0 ; rc gamma 1 0 ; rc gamma 1 0 ; rc gamma 1 0 ; rc gamma 1 0 ; pos',
+                   'rc zeta3 1 0 ; rc zeta3 1 0 ; rc zeta3 1 0 ; rc delta 11 0 ; rc delta 11 0 ; pos']
+        for k in ([0, 1, wordbits // 2, wordbits - 1] if quick else range(0, wordbits)):
+            for j in (1, 2, 3):
+                n = (wordbits - k) % wordbits + j * wordbits if k else j * wordbits
+                for cont in la:
+                    for kind in ('ct', 'gc'):
+                        ww = rng.choice(WW)
+                        data = rand_bytes(rng, (k + n) // 8 + 64, 'ones' if 'rc ' in cont else 'rand')
+                        ops = [x for x in ['rb %d' % k if k else '', '%s %d' % (kind, n), 'pos', cont, 'wf', 'wd'] if x]
+                        lines.append('S %s ww=%d copy=%d data=%s :: %s' % (cfg, ww, copy_flag, hexs(data), ' ; '.join(ops)))
+        for ww in WW:
+            pres = ['wu %d' % (ww - 1), 'wb x1 1 ; wu %d' % (ww - 2), 'wu %d' % (2 * ww - 1)]
+            if ww <= 64:
+                pres += ['wb x%x %d' % (rng.getrandbits(ww) | 1, ww), 'wb x3 2 ; wb x%x %d' % (rng.getrandbits(ww - 2) | 1, ww - 2)]
+            for pre in pres:
+                for n in (1, ww, ww + 1, 2 * ww, 2 * ww + 3):
+                    for kind in ('cf', 'gc'):
+                        data = bytes([0] * 4) + rand_bytes(rng, n // 8 + 24, 'rand')
+                        ops = [pre, '%s %d' % (kind, n), 'pos', 'wb x5 3', 'wf', 'wd']
+                        lines.append('S %s ww=%d copy=%d data=%s :: %s' % (cfg, ww, copy_flag, hexs(data), ' ; '.join(ops)))
     return lines
 
 
@@ -769,6 +799,17 @@ def gen_C11(rng, tier):
                 for k in range(0, n + 2):
                     ops = ['rw'] * (n + 1) + ['wp', 'sp %d' % k, 'wp', 'rw', 'wp', 'sp 0', 'rw', 'wp']
                     lines.append('AD seek w=%d data=%s :: %s' % (W, hexs(data), ' ; '.join(ops)))
+        # word positions beyond 2^32 bytes / 2^32 words, up to the end of the u64 byte range
+        # (storage-less source of the harness: byte i is a fixed function of i)
+        top = (1 << 64) // B
+        ks = [(1 << 31) // B, (1 << 32) // B - 1, (1 << 32) // B, (1 << 32) // B + 1, (1 << 32) - 1, 1 << 32, (1 << 32) + 1,
+              1 << 40, (1 << 61) // B, (1 << 61) // B + 1, (1 << 63) // B, top // 2 + 5, top - 3, top - 2]
+        ks += [rng.randrange(0, top - 2) for _ in range(4 if quick else 60)]
+        for k in ks:
+            if (k + 2) * B >= 1 << 64:
+                continue
+            ops = ['sp %d' % k, 'wp', 'rw', 'wp', 'rw', 'wp', 'sp %d' % (k // 2), 'wp', 'rw', 'wp', 'sp 0', 'wp', 'rw', 'wp']
+            lines.append('AD vseek w=%d :: %s' % (W, ' ; '.join(ops)))
         # random schedules
         for _ in range(40 if quick else 1500):
             nwords = rng.randrange(1, 5)
@@ -829,6 +870,15 @@ def gen_C13(rng, tier):
                 ops.append('len')
         ops += ['pos', 'dump']
         lines.append('MW kind=%s w=%d init=%s :: %s' % (kind, W, init, ' ; '.join(ops)))
+    # positions far beyond the data (32-bit boundaries, 2^63): clamps / truncations in the seek arithmetic
+    bigs = [(1 << 31) - 1, 1 << 31, (1 << 32) - 1, 1 << 32, (1 << 32) + 1, 1 << 40, (1 << 63) - 1, 1 << 63]
+    for kind in kinds:
+        for W in WW:
+            for size in (0, 1, 3):
+                init = ','.join(str(rng.getrandbits(W)) for _ in range(size)) or '-'
+                for b in bigs:
+                    ops = ['seek %d' % b, 'pos', 'r', 'pos', 'seek %d' % min(size, 1), 'pos', 'r', 'pos', 'seek 0', 'pos', 'dump']
+                    lines.append('MW kind=%s w=%d init=%s :: %s' % (kind, W, init, ' ; '.join(ops)))
     return lines
 
 
@@ -958,6 +1008,14 @@ def gen_C18(rng, tier):
             if 0 <= off + d <= U64:
                 vals.add(off + d)
     vals |= {U64, U64 - 1, 0, 127, 128}
+    # values whose partially encoded remainder has 32 or more trailing zero bits (a continuation
+    # test on a narrowed remainder stops early exactly there), every power of two and neighbours
+    for i in range(0, 64):
+        vals |= {1 << i, (1 << i) - 1, (1 << i) + 1, (1 << i) + 127, (1 << i) + 128}
+    for _ in range(40 if quick else 2000):
+        k = rng.randrange(1, 5)
+        hi = rng.randrange(1, 1 << rng.randrange(1, 64 - 32 - 7 * k + 1)) << 32
+        vals.add(min(U64, (hi << (7 * k)) + rng.randrange(0, 1 << (7 * k))))
     for _ in range(300 if quick else 20000):
         vals.add(rng.randrange(0, 1 << rng.randrange(1, 65)))
     from pycodes import vbyte_bytes
